@@ -220,7 +220,12 @@ fn edge_kinds<K: Kit>(b: &mut Batch, d: &crate::drv::Drv<K>, path: &[Vec<f64>], 
 pub fn run_case(prop: PathProp, ctx: &Ctx, b: &mut Batch, sc: &Scenario) {
     b.evaluations += 1;
     with_kit!(sc.problem.spec, K, kit => {
-        match exec::<K>(&kit, sc) {
+        // every 16th run: the planner object was used on another (larger, coarser) space first
+        let elsewhere = sc.script.is_none() && b.evaluations % 16 == 5;
+        if elsewhere {
+            b.count("runs_after_a_life_on_another_space", 1);
+        }
+        match if elsewhere { super::plan::exec_after_life_elsewhere::<K>(&kit, sc) } else { exec::<K>(&kit, sc) } {
             Ok((d, res)) => judge::<K>(prop, ctx, b, &kit, sc, &d, &res),
             Err(e) => { b.count("scenario_not_executable", 1); let _ = e; }
         }
